@@ -16,7 +16,7 @@ Step == /\ l <= Len(Trace) /\ l' = l + 1
               /\ (Ev.ok => Ev.mount = A!MountOf(table, Ev.u, Ev.p))
            \/ /\ Ev.op = "connect" /\ UNCHANGED table                       \* broker level
               /\ (Ev.code = 0) = A!Admit(table, Ev.u, Ev.p)
-              /\ (Ev.code # 0 => Ev.code = 5 /\ Ev.sessions = 0 /\ Ev.subs = 0 /\ Ev.local = 0)
+              /\ (Ev.code # 0 => Ev.sessions = 0 /\ Ev.subs = 0 /\ Ev.local = 0)
               /\ (Ev.code = 0 => Ev.mount = A!MountOf(table, Ev.u, Ev.p))
 TSpec == TInit /\ [][Step]_<<l, table>>
 HighWater == TLCSet(1, IF TLCGet(1) > l THEN TLCGet(1) ELSE l)
